@@ -172,7 +172,7 @@ def outstanding_server(s, upto):
 class C11(SessionProp):
     id = "C11"
     prop_file = "Props/C11"
-    level = "other"
+    level = "proof"
     quick_n = 500
     thorough_n = 15000
     rule = (
